@@ -28,7 +28,7 @@ def _norm(cid, ret, prop):
     extra = dict(functions=[], assumptions=[], samples=[])
     if isinstance(ret, HwCheck):
         h = ret
-        results = h.run(case_id=cid, replay_dir=os.path.join(ROOT, "replays", prop))
+        results = list(getattr(h, "pre_results", [])) + list(h.run(case_id=cid, replay_dir=os.path.join(ROOT, "replays", prop)))   # pre_results: structural postconditions checked at elaboration
         extra["assumptions"] = list(h.assumption_notes)
         extra["functions"] = list(getattr(h, "functions", []))
         extra["hints"] = dict(kept=len(getattr(h, "kept", [])), total=len(h.hints), houdini_s=round(getattr(h, "houdini_secs", 0), 2))
